@@ -29,7 +29,8 @@ pause_value = st.one_of(
     st.decimals(D("0.001"), 10, places=3, allow_nan=False, allow_infinity=False).map(str),
 )
 offset_value = st.one_of(
-    st.sampled_from(["0", "-0.009", "1.5", "0.25", "0.000", "-12.345678", None, "", "-9E-3", "+1.5"]),
+    st.sampled_from(["0", "-0.009", "1.5", "0.25", "0.000", "-12.345678", None, "", "-9E-3", "+1.5", "-0.0123456789", "0.00000049", "12.3456785"]),
+    st.decimals(-100, 100, places=9, allow_nan=False, allow_infinity=False).map(str),
     st.decimals(-100, 100, places=3, allow_nan=False, allow_infinity=False).map(str),
     st.decimals(-100, 100, places=6, allow_nan=False, allow_infinity=False).map(str),
 )
